@@ -293,7 +293,7 @@ func TestC11(t *testing.T) {
 		perTypeN: evid.N(40_000, 1_500_000),
 	}
 	c.run()
-	rec.SetExhaustive(false)
+	scriptTie(t, rec, c, evid.N(24, 200), evid.N(6, 40))
 }
 
 // ---------------------------------------------------------------- C12
@@ -323,6 +323,7 @@ func TestC12(t *testing.T) {
 		perTypeN: evid.N(60_000, 2_000_000),
 	}
 	c.run()
+	scriptTie(t, rec, c, evid.N(24, 200), evid.N(6, 40))
 }
 
 // ---------------------------------------------------------------- C13
@@ -385,6 +386,7 @@ func TestC13(t *testing.T) {
 		perTypeN: evid.N(30_000, 1_000_000),
 	}
 	c.run()
+	scriptTie(t, rec, c, evid.N(24, 200), evid.N(6, 40))
 	// cross-check against the plain operator on a sample
 	if evid.ReplayFile() == "" {
 		r := evid.Rand(13)
@@ -575,4 +577,5 @@ func TestC14(t *testing.T) {
 		rec.ReportKnown("F2", judge(ty, e, o) != "")
 	}
 	c.run()
+	scriptTie(t, rec, c, evid.N(24, 200), evid.N(6, 40))
 }
